@@ -7,6 +7,7 @@
 (*   env     the environment moved / deleted a source tag (between runs)    *)
 (*   begin   mode, tags [[reg,repo,tag,img,complete]], repos [[reg,repo,h]] *)
 (*   tagput  reg, repo, tag, img ("" = deleted), complete - serving order   *)
+(*   compl   reg, repo, tag, complete: completeness changed, tag unmoved    *)
 (*   end     mode, exit, tags, repos, lost [[reg,repo]], nwr, nmut          *)
 (* No deviation from the monitor: every event maps to exactly one action.   *)
 (***************************************************************************)
@@ -22,6 +23,7 @@ TNext ==
      \/ Ev.ev = "env" /\ PEnv
      \/ Ev.ev = "begin" /\ PBegin(Ev.mode, SeqSet(Ev.tags), SeqSet(Ev.repos))
      \/ Ev.ev = "tagput" /\ PTagPut(<<Ev.reg, Ev.repo, Ev.tag>>, Ev.img, Ev.complete)
+     \/ Ev.ev = "compl" /\ PCompl(<<Ev.reg, Ev.repo, Ev.tag>>, Ev.complete)
      \/ Ev.ev = "end" /\ PEnd(Ev.mode, Ev.exit, SeqSet(Ev.tags), SeqSet(Ev.repos), SeqSet(Ev.lost), Ev.nwr, Ev.nmut)
 TSpec == TInit /\ [][TNext]_<<pvars, l>>
 HW == TLCSet(1, IF TLCGet(1) > l THEN TLCGet(1) ELSE l)
